@@ -315,6 +315,12 @@ def run(ck, m):
                         if any(from_self(s_, seen) for s_ in srcs):
                             return True
             return False
+        # whether the two render classes are related is a question for the class hierarchy: every converted set is returned under an `issubclass` test that
+        # holds (sharing a namespace with the target only says the two classes have a common ancestor - siblings and cousins do too)
+        from tiv.sem import tconds as _tc7
+        rel7 = [c_ for c_ in _tc7(conv, r, keep=("render_cls",)) if c_.replace(" ", "") in ("issubclass(render_cls,self.render_cls)", "issubclass(self.render_cls,render_cls)")]
+        ck.ob("R7", r, bool(rel7), f"RenderArgs.convert returns `{short(v, 60)}` without `issubclass(...)` between the two render classes being known to hold on that path: "
+              "a target that is neither parent nor child (a sibling sharing an ancestor's namespace) is accepted instead of raising ValueError", stmt="RenderArgs.convert: result only for a parent or child (issubclass holds)")
         carries = isinstance(v, ast.Call) and norm(v.func) == "RenderArgs" and len(v.args) >= 2 and any(from_self(a_) for a_ in v.args[1:])
         ck.ob("R7", r, carries, f"RenderArgs.convert must build its result from this set's namespaces (`RenderArgs(render_cls, self)` / the namespaces of the common classes); found `{short(v, 70)}` - "
               "the values held for ancestor classes are lost", stmt="RenderArgs.convert: result carries self's namespaces")
